@@ -278,15 +278,21 @@ class Spec:
             self.encs.append((all(h for h, _ in tg), [v for _, v in tg])); self.last_mode = all(h for h, _ in tg); return 'OK'
         if op == 'DE':
             if not self.usks or not self.encs: return 'NOIDX'
-            u = self.usks[int(f[1]) % len(self.usks)]; hyb, vs = self.encs[int(f[2]) % len(self.encs)]
+            u = self.usks[int(f[1]) % len(self.usks)]; hyb, vs = self.encs[int(f[2]) % len(self.encs)][:2]
             if not u: return 'DEAD'
+            forced = self.encs[int(f[2]) % len(self.encs)][2] if len(self.encs[int(f[2]) % len(self.encs)]) > 2 else None
+            if forced is not None:
+                # an encapsulation that should not exist: a key is certainly NOT entitled to it when every clause names an
+                # attribute that occurs in none of the key's rights; otherwise nothing is claimed
+                held = set().union(*[set(r) for r in u]) if u else set()
+                return 'NONE' if all(not set(cl) <= held for cl in forced) else 'ANY'
             for ch in u.values():
                 for (h, v) in ch:
                     if v in vs and (h or not hyb): return 'SOME'
             return 'NONE'
         if op == 'RC':
             if not self.encs: return 'NOIDX'
-            j = int(f[1]) % len(self.mpks); pub, _ = self.mpks[j]; hyb, vs = self.encs[int(f[2]) % len(self.encs)]
+            j = int(f[1]) % len(self.mpks); pub, _ = self.mpks[j]; hyb, vs = self.encs[int(f[2]) % len(self.encs)][:2]
             rs = [r for r, ch in self.msk.items() if any(fl and v in vs and (h or not hyb) for fl, h, v in ch)]
             rs = [r for r in rs if r in pub]
             if not rs: return 'ERR'
@@ -358,4 +364,24 @@ def predict_rekeyed(script):
             if rs is not None and any(r not in s.msk for r in rs): rs = None
         r = s.step(l)
         out.append({'r' + b''.join(leb(i) for i in sorted(x)).hex() for x in rs} if (rs is not None and r == 'OK') else None)
+    return out
+
+
+def predict_adaptive(script, got):
+    """predict(), except that an encapsulation the implementation ACCEPTED although the reference semantics refuses its
+    policy (expected ERR, got OK) is entered as a 'forced' encapsulation, so that the indices stay aligned and what the
+    keys get out of it can still be judged ('NONE' for keys that hold no right over one of its attributes, 'ANY' = no
+    claim otherwise).  On a tree where the two agree this is predict()."""
+    s = Spec(); out = []
+    for l, g in zip(script, got):
+        f = l.split(' ')
+        pre = None
+        if f[0] == 'EN' and g == 'OK' and s.mpks:
+            try:
+                pub, dims = s.mpks[int(f[1]) % len(s.mpks)]
+                pre = s.enc_rights(dims, bytes.fromhex(f[2][1:]).decode())
+            except Exception: pre = None
+        r = s.step(l)
+        if f[0] == 'EN' and g == 'OK' and r == 'ERR' and pre: s.encs.append((False, [], [tuple(c) for c in pre]))
+        out.append(r)
     return out
